@@ -4,6 +4,9 @@ import (
 	"fmt"
 	"os"
 	"strings"
+
+	"github.com/openziti/storage/ast"
+	"go.etcd.io/bbolt"
 )
 
 // ---- wirings ---------------------------------------------------------------------------------
@@ -83,6 +86,8 @@ type genProfile struct {
 	pVeto       int
 	pSys        int
 	pSysEntity  int
+	pBatch      int // percent of transactions run through Db.Batch
+	pLongKey    int // percent of plain field values replaced by a 33000-byte string (bbolt: key too large)
 	endInDelete bool
 }
 
@@ -92,7 +97,7 @@ var plainIds = []string{"a", "b", "c", "d", "e", "f"}
 var hostileIds = []string{`x" or id != "`, `a\`, `or`, `b c`, `"`, `not`, `a=b`, `(`, `x\"y`, `é`, "t\tb", `and true`, `a" or true or id = "`}
 
 func profileFor(name string) *genProfile {
-	p := &genProfile{name: name, wirings: allWirings, ids: plainIds, vals: []string{"v1", "v2", "v3", "", "v4"},
+	p := &genProfile{name: name, wirings: allWirings, ids: plainIds, vals: []string{"v1", "v2", "v3", "", "v4", "v5", "v6", "v7", "v8"},
 		maxTx: 7, maxOps: 3, pFail: 6, pPreCommit: 4, pVeto: 6, pSys: 25, pSysEntity: 20}
 	switch name {
 	case "c03":
@@ -102,8 +107,9 @@ func profileFor(name string) *genProfile {
 	case "c06":
 		p.endInDelete = true
 	case "c07":
-		p.pFail, p.pPreCommit, p.pVeto = 20, 15, 20
+		p.pFail, p.pPreCommit, p.pVeto = 12, 8, 14
 		p.maxOps = 4
+		p.pBatch, p.pLongKey = 12, 2
 	case "c15":
 		p.wirings = []string{"idx", "casc"}
 	case "c16":
@@ -118,24 +124,33 @@ type histGen struct {
 	w *wiring
 	p *genProfile
 	// what the generator believes exists (only to bias choices; never used as an oracle)
-	alive map[string]map[string]bool
-	ids   []string
+	alive  map[string]map[string]bool
+	ids    []string
+	curSys bool // the transaction being generated runs in a system context
 }
 
 func (g *histGen) pickId() string { return g.ids[g.r.intn(len(g.ids))] }
 
-func (g *histGen) pickAlive(store string) string {
-	root := store
-	if p := g.w.store(store).Parent; p != "" {
-		root = p
-	}
+func (g *histGen) aliveIds(store string) []string {
 	var xs []string
 	for _, id := range g.ids {
-		if g.alive[root][id] {
+		if g.alive[store][id] {
 			xs = append(xs, id)
 		}
 	}
-	if len(xs) == 0 || g.r.chance(15) {
+	return xs
+}
+
+func (g *histGen) rootOf(store string) string {
+	if p := g.w.store(store).Parent; p != "" {
+		return p
+	}
+	return store
+}
+
+func (g *histGen) pickAlive(store string) string {
+	xs := g.aliveIds(store)
+	if len(xs) == 0 || g.r.chance(8) {
 		return g.pickId()
 	}
 	return xs[g.r.intn(len(xs))]
@@ -187,6 +202,8 @@ func (g *histGen) fieldsValue(op *hOp) {
 		switch {
 		case f.Ptr && g.r.chance(25):
 			// nil
+		case g.p.pLongKey > 0 && g.r.chance(g.p.pLongKey):
+			op.F[f.Name] = sp(strings.Repeat("k", 33000))
 		default:
 			op.F[f.Name] = sp(g.p.vals[g.r.intn(len(g.p.vals))])
 		}
@@ -205,28 +222,75 @@ func (g *histGen) fieldsValue(op *hOp) {
 	}
 }
 
+// missingTarget returns a store that must get an entity before store st can be created
+// (a non-nullable fk field whose target store is empty), or ""
+func (g *histGen) missingTarget(st *sStore) string {
+	fields, _ := g.w.allFields(st.Name)
+	for _, f := range fields {
+		if f.Ptr {
+			continue
+		}
+		owner := st.Name
+		if g.fkTargetOf(owner, f.Name) == "" && st.Parent != "" {
+			owner = st.Parent
+		}
+		if t := g.fkTargetOf(owner, f.Name); t != "" && t != g.rootOf(st.Name) && len(g.aliveIds(t)) == 0 {
+			return t
+		}
+	}
+	return ""
+}
+
+func (g *histGen) markCreated(store, id string) {
+	g.alive[store][id] = true
+	g.alive[g.rootOf(store)][id] = true
+}
+
+func (g *histGen) markDeleted(store, id string) {
+	root := g.rootOf(store)
+	delete(g.alive[root], id)
+	for _, s := range g.w.Stores {
+		if s.Parent == root {
+			delete(g.alive[s.Name], id)
+		}
+	}
+}
+
+func (g *histGen) genCreate(st *sStore) hOp {
+	if g.r.chance(90) {
+		for depth := 0; depth < 3; depth++ {
+			t := g.missingTarget(st)
+			if t == "" {
+				break
+			}
+			st = g.w.store(t)
+		}
+	}
+	root := g.rootOf(st.Name)
+	op := hOp{Kind: "C", Store: st.Name, Id: g.pickId(), Sys: g.r.chance(g.p.pSysEntity) && (g.curSys || g.r.chance(6))}
+	if g.r.chance(90) { // prefer an id that does not exist yet
+		for try := 0; try < 8 && g.alive[root][op.Id]; try++ {
+			op.Id = g.pickId()
+		}
+	}
+	if g.r.chance(2) {
+		op.Id = ""
+	}
+	g.fieldsValue(&op)
+	g.markCreated(st.Name, op.Id)
+	return op
+}
+
 func (g *histGen) genOp() hOp {
 	stores := g.w.Stores
 	st := stores[g.r.intn(len(stores))]
-	root := st.Name
-	if st.Parent != "" {
-		root = st.Parent
-	}
 	k := g.r.intn(100)
+	if len(g.aliveIds(st.Name)) == 0 && g.r.chance(92) {
+		k = 0 // nothing to update or delete yet
+	}
 	switch {
-	case k < 38:
-		op := hOp{Kind: "C", Store: st.Name, Id: g.pickId(), Sys: g.r.chance(g.p.pSysEntity)}
-		if g.r.chance(70) { // prefer an id that does not exist yet
-			for try := 0; try < 4 && g.alive[root][op.Id]; try++ {
-				op.Id = g.pickId()
-			}
-		}
-		if g.r.chance(2) {
-			op.Id = ""
-		}
-		g.fieldsValue(&op)
-		g.alive[root][op.Id] = true
-		return op
+	case k < 36:
+		return g.genCreate(st)
 	case k < 66:
 		op := hOp{Kind: "UP", Store: st.Name, Id: g.pickAlive(st.Name), Sys: g.r.chance(g.p.pSysEntity)}
 		g.fieldsValue(&op)
@@ -245,15 +309,14 @@ func (g *histGen) genOp() hOp {
 			}
 		}
 		return op
-	case k < 88:
+	case k < 86:
 		op := hOp{Kind: "D", Store: st.Name, Id: g.pickAlive(st.Name)}
-		delete(g.alive[root], op.Id)
+		g.markDeleted(st.Name, op.Id)
 		return op
 	default:
-		// link ops where the wiring has a link collection, else an update
+		// link ops where the wiring has a link collection, else an update of a single field
 		for _, s2 := range g.w.Stores {
-			s2 := s2
-			if len(g.w.store(s2.Name).Links) > 0 && g.r.chance(60) {
+			if len(s2.Links) > 0 && len(g.aliveIds(s2.Name)) > 0 {
 				l := s2.Links[g.r.intn(len(s2.Links))]
 				op := hOp{Kind: "AL", Store: s2.Name, Id: g.pickAlive(s2.Name), LinkF: l.Local}
 				if g.r.chance(30) {
@@ -266,14 +329,13 @@ func (g *histGen) genOp() hOp {
 				return op
 			}
 		}
-		op := hOp{Kind: "D", Store: st.Name, Id: g.pickAlive(st.Name)}
-		delete(g.alive[root], op.Id)
-		return op
+		return g.genCreate(st)
 	}
 }
 
 func (g *histGen) genTx() hTx {
 	t := hTx{Sys: g.r.chance(g.p.pSys), PreCommitErr: g.r.chance(g.p.pPreCommit)}
+	g.curSys = t.Sys
 	n := 1 + g.r.intn(g.p.maxOps)
 	for i := 0; i < n; i++ {
 		t.Ops = append(t.Ops, g.genOp())
@@ -284,6 +346,9 @@ func (g *histGen) genTx() hTx {
 		ops = append(ops, hOp{Kind: "FAIL"})
 		ops = append(ops, t.Ops[pos:]...)
 		t.Ops = ops
+	}
+	if g.p.pBatch > 0 && g.r.chance(g.p.pBatch) {
+		t.Vetoes = append(t.Vetoes, hVeto{Store: "@batch", Change: "C", Id: ""})
 	}
 	if g.r.chance(g.p.pVeto) {
 		// veto one of the changes this transaction attempts (or a parent event of it)
@@ -308,28 +373,62 @@ func (g *histGen) genTx() hTx {
 	return t
 }
 
-func (g *histGen) genHistory() []hTx {
+// refresh makes the generator's view of which ids exist follow the real database (only to bias the
+// choices towards mostly-valid operations; never used as an oracle)
+func (g *histGen) refresh(h *harnessDb) {
 	g.alive = map[string]map[string]bool{}
 	for _, s := range g.w.Stores {
-		if s.Parent == "" {
-			g.alive[s.Name] = map[string]bool{}
-		}
+		g.alive[s.Name] = map[string]bool{}
 	}
+	if h == nil {
+		return
+	}
+	_ = h.db.View(func(tx *bbolt.Tx) error {
+		for _, s := range g.w.Stores {
+			root := s.Name
+			if s.Parent != "" {
+				root = s.Parent
+			}
+			for c := h.stores[root].IterateIds(tx, ast.BoolNodeTrue); c.IsValid(); c.Next() {
+				id := string(c.Current())
+				if s.Parent == "" || h.stores[s.Name].IsEntityPresent(tx, id) {
+					g.alive[s.Name][id] = true
+				}
+			}
+		}
+		return nil
+	})
+}
+
+// genAndRun generates a history transaction by transaction against the live database and executes it
+func (g *histGen) genAndRun(h *harnessDb) ([]hTx, string) {
+	var obs strings.Builder
 	n := 1 + g.r.intn(g.p.maxTx)
 	var txs []hTx
+	step := func(t hTx) {
+		txs = append(txs, t)
+		obs.WriteString(h.runTx(&txs[len(txs)-1]))
+	}
 	for i := 0; i < n; i++ {
-		txs = append(txs, g.genTx())
+		g.refresh(h)
+		step(g.genTx())
 	}
 	if g.p.endInDelete {
+		g.refresh(h)
 		st := g.w.Stores[g.r.intn(len(g.w.Stores))]
 		id := g.pickAlive(st.Name)
-		txs = append(txs, hTx{Sys: true, Ops: []hOp{{Kind: "D", Store: st.Name, Id: id}}})
+		step(hTx{Sys: true, Ops: []hOp{{Kind: "D", Store: st.Name, Id: id}}})
 		// and re-create it afterwards: must behave like a fresh id
+		g.refresh(h)
 		op := hOp{Kind: "C", Store: st.Name, Id: id}
 		g.fieldsValue(&op)
-		txs = append(txs, hTx{Sys: true, Ops: []hOp{op}})
+		step(hTx{Sys: true, Ops: []hOp{op}})
+		for k := g.r.intn(3); k > 0; k-- {
+			g.refresh(h)
+			step(g.genTx())
+		}
 	}
-	return txs
+	return txs, obs.String()
 }
 
 // ---- sub-command -------------------------------------------------------------------------------
@@ -397,7 +496,6 @@ func runStore(o *opts) error {
 		return nil
 	}
 	r := newRng(o.seed)
-	only := o.getInt("only", -1)
 	for i := 0; i < n; i++ {
 		w := wiringByName(prof.wirings[i%len(prof.wirings)])
 		w.derive()
@@ -410,14 +508,19 @@ func runStore(o *opts) error {
 			}
 			g.ids = append(g.ids, "a")
 		}
-		txs := g.genHistory()
-		if only >= 0 && i != only {
-			continue
-		}
-		c, obs, err := runHistory(w, txs, tmp)
+		h, err := openHarnessDb(w, tmp)
 		if err != nil {
 			return err
 		}
+		txs, obs := g.genAndRun(h)
+		h.close()
+		var cb strings.Builder
+		cb.WriteString(w.text())
+		for k := range txs {
+			cb.WriteString(" ")
+			cb.WriteString(w.txText(&txs[k]))
+		}
+		c := cb.String()
 		cases.line("%s", c)
 		impl.line("%s", obs)
 		stats["histories"]++
